@@ -3,6 +3,7 @@ Structural clauses decided (DESIGN.md §5 C06): the RFC 4035 §5.3.1 conjunct se
 ValidRrsig return; the guard set of the one Ok((Secure, ttl)) in verify_rrset_with_dnskey; key
 filtering in verify_rrsig_with_keys; TTL provenance; validation-cache key and expiry guard."""
 import re
+import core
 from api import shorten, writers
 
 EXPLANATION = (
@@ -159,3 +160,16 @@ def run(cx):
             cx.check('C06.S2', capped_last, i.path, s.key(), 'signature-cap-applied-last',
                      'the cached lifetime of a Secure verdict is not min(.., authenticated ttl) at the top level: a bound applied afterwards can outlive the signature; lifetime = ' + life[:260], s.loc)
         cx.check('C06.S2', len(ins) == 1, i.path, 'calls', 'single-insert', str(len(ins)))
+
+    # ---------------------------------------------------------------- S3 the validator's clock in serial-number space
+    # RFC 4034 3.1.5: inception/expiration are compared in serial number arithmetic (mod 2^32); the clock that is compared with
+    # them must be reduced the same way (a plain `as u32`), not saturated at u32::MAX - a saturated clock stops moving in 2106
+    # and every signature whose window contains 0xFFFFFFFF then stays valid for ever
+    vr = cx.fn('C06.S3', N + 'DnssecDnsHandle::verify_response::{closure#0}')
+    if vr:
+        vs = cx.calls(vr, r'DnssecDnsHandle<H>::verify_rrsets$|DnssecDnsHandle::verify_rrsets$')
+        cx.check('C06.S3', len(vs) >= 3, vr.path, 'calls', 'verify_rrsets-per-section', str(len(vs)))
+        for s_ in vs:
+            clock = core.split_args(s_.term[s_.term.index('(') + 1:-1])[-1]
+            ok = bool(re.fullmatch(r'cast<u32>\((Time::current_time\(\)|rem\(Time::current_time\(\),4294967296\)|bitand\(Time::current_time\(\),4294967295\))\)', clock))
+            cx.check('C06.S3', ok, vr.path, s_.key(), 'clock=now-mod-2^32', 'current time passed to the validity check: ' + clock[:120], s_.loc)
